@@ -16,7 +16,7 @@ RULE = (
     "a generated JSON-like value or an arbitrary object (object(), set, complex, lambda, bytes, tuple, exception "
     "instance, type, nan), raise one of ValueError / custom Exception / KeyboardInterrupt / SystemExit / "
     "CancelledError / custom BaseException, signal no-result, or run for dur vs a `timeout` label given "
-    "as int, float or str (below / equal / above); typed user labels; result-backend failures on a generated subset "
+    "as int, float or str (below / equal / above); typed user labels, plus labels (optionally the timeout label itself) added after the client computed the label types - as a pre_send middleware or a foreign producer adds them - which travel untyped; result-backend failures on a generated subset "
     "of saves; wall-clock steps (backwards and forwards) while a task runs; messages that re-use the task id of an earlier message (redelivery); A in 1..3. Oracle on what the recording result backend receives: #set_result per task id (0 for "
     "no-result, else 1), is_err / return_value / type(error) as scripted (timeout => TimeoutError and the body is "
     "cancelled at enter+timeout; equal => either), result.labels == the message's typed labels, and after a failed "
@@ -71,6 +71,8 @@ def scenario(big: bool = False) -> Any:
         "rvkind": st.sampled_from(["json", "json", "obj", "default"]),
         "rv": JSONV, "rvobj": st.sampled_from(sorted(wh.OBJECTS)),
         "labels": st.dictionaries(st.sampled_from(["u1", "u2", "prio", "x-y", "Ключ"]), LABELV, max_size=3),
+        "late_labels": st.dictionaries(st.sampled_from(["trace", "origin", "n"]), st.one_of(st.text(max_size=4), st.integers(-5, 5), st.booleans()), max_size=2),
+        "timeout_late": st.booleans(),
         "dup": st.one_of(st.none(), st.none(), st.none(), st.none(), st.integers(0, 5)),
         "clock_step": st.sampled_from([0, 0, 0, -5.0, 3600.0, -0.5]),   # the wall clock jumps while this task runs
     })).map(lambda t: {**t[0], **t[1]})
@@ -181,9 +183,11 @@ def run_case(sc: Dict[str, Any]) -> Outcome:
             if r.return_value is not None:
                 out.add("C07.b", f"message {i} raised but return_value={short(r.return_value, 80)}")
         exp_labels = dict(sp.get("labels") or {})
+        exp_labels.update(sp.get("late_labels") or {})
         if to is not None:
             exp_labels["timeout"] = to
-        if not same(dict(r.labels), exp_labels):
+        got_labels = dict(r.labels)
+        if set(got_labels) != set(exp_labels) or not all(same(got_labels[k_], exp_labels[k_]) for k_ in exp_labels):   # key order is not part of the property
             out.add("C07.c", f"message {i}: result.labels {short(dict(r.labels), 200)} != message labels {short(exp_labels, 200)}")
     for g, mem in sorted(dup_groups.items()):
         classes.add("duplicate_task_id")
